@@ -27,6 +27,6 @@ CONSTANTS
   Slack = 0
   Bound = 0
   ZonedPanics = FALSE
-INVARIANTS TypeOK MechNat FwdAuthentic FwdOnce ReplyAuthentic ReplyOnce SaltsFresh CreateOnlyValid CreateOnce SrcPrivate OwnerOnly SrcStable FwdComplete ReplyComplete OnePerClient NoCrash HandleTotal
+INVARIANTS TypeOK MechNat FwdAuthentic FwdToNamed FwdOnce ReplyAuthentic ReplyOnce SaltsFresh CreateOnlyValid CreateOnce SrcPrivate OwnerOnly SrcStable FwdComplete ReplyComplete OnePerClient NoCrash HandleTotal
 VIEW View
 CHECK_DEADLOCK FALSE
